@@ -226,8 +226,25 @@ def rule_check(ctx):
     ctx.check(len(in_loop) == 1, R, f, "one rejecting return", "exactly one rejecting return", "%d returns inside the iteration" % len(in_loop))
 
 
+def rule_output_keys(ctx, R="C22.inputs"):
+    """the dict _sample_continuous returns holds the continuous factors only: it starts empty and is stored to under cFactor.name"""
+    f = ctx.fn("block:Block._sample_continuous")
+    rets = [s for s in statements(f.node) if isinstance(s, ast.Return)]
+    ctx.require(len(rets) == 1 and isinstance(rets[0].value, ast.Name), "_sample_continuous: expected a single `return <dict>`")
+    out = rets[0].value.id
+    inits = [s for s in f.node.body if isinstance(s, ast.Assign) and dotted(s.targets[0]) == out]
+    ctx.check(len(inits) == 1 and isinstance(inits[0].value, ast.Dict) and not inits[0].value.keys, R, f, "starts empty: %s" % (ast.unparse(inits[0]) if inits else None),
+              "the returned dict starts empty, so it only ever holds continuous factors",
+              "the dict returned by _sample_continuous starts as `%s`: everything in it is merged into the returned trials by synthesize_trials, including keys the hidden-name filter had removed" % (
+                  ast.unparse(inits[0].value) if inits else "?"), inits[0] if inits else f.node)
+    stores = [s for s in statements(f.node) if isinstance(s, ast.Assign) and isinstance(s.targets[0], ast.Subscript) and dotted(s.targets[0].value) == out]
+    ctx.check(bool(stores) and all(ast.unparse(s.targets[0].slice).endswith(".name") for s in stores), R, f, "keys are continuous factor names", "entries are stored under the name of the continuous factor being sampled",
+              "_sample_continuous stores under %s" % [ast.unparse(s.targets[0].slice) for s in stores])
+
+
 def rule_inputs(ctx):
     R = "C22.inputs"
+    rule_output_keys(ctx, R)
     f = ctx.fn("block:Block._sample_continuous")
     F = Facts(f)
     outer = [s for s in f.node.body if isinstance(s, ast.For)]
@@ -259,7 +276,7 @@ def rule_inputs(ctx):
             args = [ast.unparse(a) for a in node.args]
             ctx.check(args == [i, out], R, f, "window input %s" % ast.unparse(node), "the window is evaluated at the trial being generated, over the values of this sequence",
                       "get_window_val is called with %s, expected (%s, %s)" % (args, i, out), node)
-    ctx.require(n >= 3, "_sample_continuous: only %d per-trial inputs found" % n)
+    ctx.require(n >= 2, "_sample_continuous: only %d per-trial inputs found" % n)
     # one generated value per trial, appended to the list stored under the factor's own name
     gens = [s for s in tl[0].body if isinstance(s, ast.Assign) and isinstance(s.value, ast.Call) and call_attr(s.value) == "generate"]
     ctx.require(len(gens) == 1, "_sample_continuous: generate(...) call not found at the top of the trial loop body")
@@ -337,8 +354,7 @@ def rule_window(ctx):
     ctx.check(len(part) == 1 and "float('nan')" in ast.unparse(part[0].body[0]), R, f, "partial window", "positions before the first trial are NaN", "partial-window handling changed")
 
 
-def rule_merge(ctx):
-    R = "C22.merge"
+def rule_merge(ctx, R="C22.merge"):
     f = ctx.fn("main:synthesize_trials")
     rets = [s for s in statements(f.node) if isinstance(s, ast.Return) and s.value is not None]
     ctx.require(len(rets) == 1 and isinstance(rets[0].value, ast.Name), "synthesize_trials: expected a single `return <list>`")
@@ -411,6 +427,6 @@ def check(ctx):
                                            "                    factor_idx[-k] = dependent_dict[f.name][idx-k-1]\n                outlist.append(factor_idx)\n        if"), "C22.window")
     ctx.min_instances("C22.loop", 8)
     ctx.min_instances("C22.check", 8)
-    ctx.min_instances("C22.inputs", 13)
+    ctx.min_instances("C22.inputs", 15)
     ctx.min_instances("C22.window", 8)
     ctx.min_instances("C22.merge", 5)
